@@ -32,6 +32,12 @@ from .visualizations import visualizer
 #plt.interactive(True)
 
 
+import threading
+
+# serialises the test-and-set of the advisory session lock (see bptk.try_lock)
+_session_lock_guard = threading.Lock()
+
+
 class conf:
     def __init__(self):
         """Initialze config zu defaults."""
@@ -235,6 +241,14 @@ class bptk():
     def lock(self):
         if self.session_state is not None:
             self.session_state["lock"] = True
+
+    def try_lock(self):
+        """Atomically lock the session. Returns False (and changes nothing) if it is already locked."""
+        with _session_lock_guard:
+            if self.is_locked():
+                return False
+            self.lock()
+            return True
     def unlock(self):
         if self.session_state is not None:
             self.session_state["lock"] = False
